@@ -620,7 +620,7 @@ func main() {
 			}
 		}
 		if !isKnown {
-			newViolations = append(newViolations, fmt.Sprintf("VIOLATION property=%s replay=%s", withReplay.Property, dst))
+			newViolations = append(newViolations, fmt.Sprintf("VIOLATION property=%s replay=%s", prop, dst))
 			fmt.Printf("violation class %s (%d runs), first at run %d: %s\n", c, len(byClass[c]), withReplay.RunIndex, firstLine(withReplay.Msg))
 		}
 	}
